@@ -22,7 +22,12 @@ rule = ("scripts = 'it begin', 'it create <hex of description>' or 'it profile <
         "iterator-argument forms of the linear/range/factor creators fed from text and buffer sources, grid-less "
         "polynomial sources, extreme parameters (infinite literals, subnormal factors, counts around 2^32), histories "
         "inside one process (a refused range or subnormal element before lists with infinite elements) and a grid "
-        "owner appending points inside and beyond the reserved space while a source over the grid is alive")
+        "owner appending points inside and beyond the reserved space while a source over the grid is alive; "
+        "non-dyadic range bounds and steps (count checked, values by the tolerant rendering); metatype plumbing, values "
+        "that are no description, mpt_range_set with vectors, element reads as string; S column: accepted for every "
+        "canonical description and canonical profile description with its denotation, refused for certainly malformed "
+        "texts, malformed counts, recognised descriptions without a sequence and malformed profiles; text arguments stay "
+        "judged after an advance over an unread element (it ends like a read one or extends to the end of the text)")
 assumptions = [
     "decimal literals are compared exactly (xvalue) only when every number involved is a dyadic fraction; otherwise "
     "with the tolerant decimal rendering of the drivers (8-digit decimals within 1e-12, else 6 digits); rounding of arbitrary doubles, overflow, nan, hexadecimal literals, digit runs "
